@@ -778,7 +778,7 @@ func verifRebase(pre, before, after map[string]string) {
 	}
 }
 
-func (e *verifEnv) restart(op string, pres []*verifSnapshot) {
+func (e *verifEnv) restart(op, fault string, pres []*verifSnapshot) {
 	c := e.c
 	// Stop() waits for every handler: a body that was about to begin runs, a
 	// backend call cannot be interrupted (the handler may go on to further
@@ -844,7 +844,7 @@ func (e *verifEnv) restart(op string, pres []*verifSnapshot) {
 		verifRebase(pre.repo, before.repo, s.repo)
 		verifRebase(pre.repoSt, before.repoSt, s.repoSt)
 	}
-	e.checkSync(s, "after-restart", op, "none")
+	e.checkSync(s, "after-restart", op, fault)
 }
 
 // ---------------------------------------------------------------------------
@@ -1174,7 +1174,7 @@ func (e *verifEnv) submit(label string, first *verifChange, withFault bool, step
 		})
 	default: // restart between changes
 		c.Logf("%s: restart", label)
-		e.restart("idle", nil)
+		e.restart("idle", "none", nil)
 		return nil
 	}
 	if apiErr != nil || len(tss) == 0 {
@@ -1317,7 +1317,18 @@ func (e *verifEnv) driveAll(first *verifChange, overlapAt int, faultsOn bool) ([
 			for _, ch := range active {
 				pres = append(pres, ch.plan.pre)
 			}
-			e.restart(p.op+"-in-progress", pres)
+			// filed under the failure point that already fired, if any
+			fault := "none"
+			for _, ch := range active {
+				if ch.plan.fired {
+					fault = verifFaultNames[ch.plan.kind]
+					break
+				}
+			}
+			if len(active) > 1 {
+				fault += ".overlapped"
+			}
+			e.restart(p.op+"-in-progress", fault, pres)
 			if len(c.Violations) > 0 {
 				return active, false
 			}
@@ -1774,7 +1785,7 @@ func verifRunC22(c *verifsim.Ctx) {
 		e.evaluate(active)
 	}
 	if len(c.Violations) == 0 && c.Chance("final-restart", 1, 2) {
-		e.restart("idle", nil)
+		e.restart("idle", "none", nil)
 	}
 	c.SimTime = time.Since(t0)
 }
